@@ -1,3 +1,129 @@
-FUNCS = []
-def obligations(tier, seed): return []
-def bounds(tier): return ''
+"""C12-B — parse information: rule name and start/end offsets of every dict-like AST, start line consistent with the start offset."""
+from __future__ import annotations
+
+from ..grammars import A, C, EOF_, N, NL, OPT, P, REP, S, T
+from ..harness import mktext, skel
+from ..runner import Ob
+
+UNI = 0x110000
+FUNCS = ['tatsu.contexts.engine:ParserEngine.make_parseinfo/set_parseinfo/call/rule_call', 'tatsu.contexts.ast:AST.set_parseinfo', 'tatsu.contexts.infos:ParseInfo']
+
+GRAMMARS = {
+    'items': [('start', S(NL('elems', REP(C('item'))), EOF_)), ('item', S(N('k', P('[a-z]')), OPT(N('v', T('1')))))],
+    'pair': [('start', S(N('l', C('r')), OPT(T(',')), OPT(N('m', C('r'))))), ('r', A(N('x', T('a')), N('y', T('b'))))],
+    'nested': [('start', S(N('a', C('mid')), EOF_)), ('mid', S(N('i', C('leaf')), OPT(N('j', C('leaf'))))), ('leaf', N('v', P('\\w')))],
+    'retry': [('start', A(S(N('p', C('r')), T('x')), S(N('q', C('r')), OPT(T('y'))))), ('r', N('v', A(T('a'), T('b'))))],
+    'upper': [('start', S(N('t', C('Tok')), OPT(N('u', C('tok'))))), ('Tok', N('v', P('[ab]'))), ('tok', N('w', P('[ab]')))],
+}
+
+
+def make_parseinfo(spec):
+    from ..pegbody import Engine, render_full, rules_of
+    from ..refpeg import Fail, G, Ref
+    from .c12 import is_break_py, ref_lines
+    rules = rules_of(spec)
+    gtext = render_full(rules)
+    eng = Engine(gtext, {'parseinfo': True})
+    g = G(rules)
+    names = [n for n, _ in rules]
+    n = spec['n']
+
+    def strip(v):
+        if isinstance(v, dict):
+            return {k: strip(x) for k, x in v.items() if k not in ('parseinfo', '__parseinfo__')}
+        if isinstance(v, (list, tuple)):
+            return [strip(x) for x in v]
+        return v
+
+    def walk(v, out):
+        if isinstance(v, dict):
+            out.append(v)
+            for k, x in v.items():
+                if k not in ('parseinfo', '__parseinfo__'):
+                    walk(x, out)
+        elif isinstance(v, (list, tuple)):
+            for x in v:
+                walk(x, out)
+
+    def line_of(spans, pos, length):
+        if pos >= length:
+            return None          # convention at end of text not fixed by the property (see part A)
+        k = 0
+        while not (spans[k][0] <= pos < spans[k][1]):
+            k += 1
+        return k
+
+    def body(args):
+        t = mktext(args)
+        try:
+            real = eng.parse(t)
+        except Exception as e:  # noqa: BLE001
+            return False, 'exception', type(e).__name__ + ': ' + str(e)[:80]
+        r = Ref(g, t)
+        try:
+            v, q = r.parse()
+            ref = ('ok', v, q)
+        except Fail:
+            ref = ('fail',)
+        if real[0] != ref[0]:
+            return False, 'outcome', [real[0], ref[0]]
+        if real[0] == 'fail':
+            return True, 'fail' if real[1] > 0 else 'triv:fail0', None
+        if not (strip(real[1]) == ref[1]):
+            return False, 'ast', [skel(strip(real[1])), skel(ref[1])]
+        nodes = []
+        walk(real[1], nodes)
+        lines = ref_lines(t, is_break_py)
+        count = 0
+        for nd in nodes:
+            pi = nd.get('parseinfo')
+            if pi is None:
+                return False, 'missing-parseinfo', [skel(strip(nd))]
+            if pi.rule not in names:
+                return False, 'unknown-rule', [pi.rule]
+            val = strip(nd)
+            found = False
+            for (rn, s, e, rv) in r.spanlog:
+                if rn == pi.rule and s == pi.pos and e == pi.endpos and isinstance(rv, dict) and rv == val:
+                    found = True
+                    break
+            if not found:
+                return False, 'span', [pi.rule, pi.pos, pi.endpos, [(a, b, c) for (a, b, c, d) in r.spanlog if a == pi.rule]]
+            if not (0 <= pi.pos <= pi.endpos <= n):
+                return False, 'offsets', [pi.pos, pi.endpos]
+            want = line_of(lines, pi.pos, n)
+            if want is not None and pi.line != want:
+                return False, 'line', [pi.pos, pi.line, want]
+            wante = line_of(lines, pi.endpos, n)
+            if wante is not None and pi.endline != wante:
+                return False, 'endline', [pi.endpos, pi.endline, wante]
+            count += 1
+        return True, 'ok', [count]
+
+    def explain(args):
+        t = mktext(args)
+        r = Ref(g, t)
+        try:
+            ref = r.parse()
+        except Fail:
+            ref = 'fail'
+        return f'grammar:\n{gtext}text={t!r}\nreal={eng.parse(t)!r}\nreference={ref!r}\nreference spans={[(a, b, c) for (a, b, c, d) in r.spanlog]}'
+
+    body.explain = explain
+    body.warm = [tuple(map(ord, w)) for w in ['', 'a', 'a1', 'ab', 'a b', '\na', 'a\nb', 'a,b', ' a ', 'ax', 'by', 'a\r\n', 'b 1', '\n\nb', 'a\rb'] if len(w) == n]
+    return body
+
+
+def obligations(tier, seed):
+    obs = []
+    maxn = 3 if tier == 'quick' else 4
+    for gn, rules in GRAMMARS.items():
+        for n in range(0, maxn + 1):
+            obs.append(Ob(name=f'B_{gn}_L{n}', factory='vt.props.c12b:make_parseinfo', spec={'grammar': gn, 'rules': rules, 'n': n},
+                          params=[(f'c{i}', 0, UNI) for i in range(n)], budget={0: 40, 1: 40, 2: 90, 3: 400, 4: 2000}[n], group='B',
+                          require_tags=('ok',) if n == 2 else ()))
+    return obs
+
+
+def bounds(tier):
+    return f'B: {len(GRAMMARS)} grammars with named rules, parseinfo=True, text length 0..{3 if tier == "quick" else 4} over all Unicode (default whitespace, so line breaks occur between elements).'
